@@ -487,7 +487,8 @@ func verifE2E(op *verifOp, res *verifOut) {
 			w.Write([]byte("s"))
 		case "redirect":
 			if arg > 0 {
-				http.Redirect(w, r, "/redirect/"+strconv.Itoa(arg-1), http.StatusFound)
+				w.Header().Set("Location", "/redirect/"+strconv.Itoa(arg-1))
+				w.WriteHeader(http.StatusFound)
 			} else {
 				w.Write([]byte("end"))
 			}
@@ -536,7 +537,7 @@ func verifE2E(op *verifOp, res *verifOut) {
 	defer srv.Close()
 	base := srv.URL
 	if op.Server == "unix" {
-		base = "http://unix.invalid"
+		base = "http://127.0.0.1" // a literal address: with the default -dns-ttl the host of the URL is still looked up
 	}
 	res.BaseURL = base
 	addr := strings.TrimPrefix(strings.TrimPrefix(base, "https://"), "http://")
